@@ -118,56 +118,196 @@ pub fn closes(s: &AppScript) -> bool {
     !s.writer.iter().any(|o| matches!(o, WOp::Hold))
 }
 
-/// C02 clause 1 (fair-lossy progress): the scenario completes: every byte written is read by the
-/// peer, flush/shutdown returned Ok, EOF seen, no error anywhere, before the horizon.
-/// Only meaningful for scenarios whose applications run to completion (both read to EOF, both close).
+/// C02 clause 1 (fair-lossy progress), exactly what the statement promises: every scripted write is
+/// accepted, every accepted byte is read by a peer that keeps reading, flush and shutdown return
+/// (successfully: all bytes get acknowledged on a fair network). Whether the *end of stream* reaches
+/// the peer and whether reads end in EOF or in an error after everything was delivered is C17/C03's
+/// business, not this oracle's.
 pub fn progress(scn: &Scenario, l: &RunLog) -> Vec<Finding> {
     let mut v = vec![];
     let want = [script_bytes(&scn.app_a), script_bytes(&scn.app_b)];
-    if l.watchdog_fired || !l.apps_finished {
-        let stuck = l.stuck.clone();
-        let connected = l.app.iter().any(|e| e.ev == AppEv::Connected);
-        let sig = if !connected { "progress/connect-never-completed" } else { "progress/stalled-until-watchdog" };
-        v.push(f("C02", "progress", sig, format!("run did not complete within {} s of virtual time; stuck: {}", scn.horizon_s, stuck.join("; "))));
-        return v;
+    let horizon_us = scn.horizon_s * 1_000_000;
+    // state at the horizon
+    let mut accepted = [0u64; 2];
+    let mut read = [0u64; 2];
+    let mut pending_call: [Option<&'static str>; 2] = [None, None];
+    for e in l.app.iter().filter(|e| e.t_us <= horizon_us) {
+        let s = idx(e.side);
+        match &e.ev {
+            AppEv::WriteAccepted { n, .. } => {
+                accepted[s] += *n as u64;
+                pending_call[s] = None;
+            }
+            AppEv::WritePending => pending_call[s] = Some("write"),
+            AppEv::FlushCalled => pending_call[s] = Some("flush"),
+            AppEv::ShutdownCalled => pending_call[s] = Some("shutdown"),
+            AppEv::FlushOk | AppEv::ShutdownOk => pending_call[s] = None,
+            AppEv::ReadGot { n, .. } => read[s] += *n as u64,
+            AppEv::WriteErr(m) | AppEv::FlushErr(m) | AppEv::ShutdownErr(m) => {
+                let what = match &e.ev {
+                    AppEv::WriteErr(_) => "write",
+                    AppEv::FlushErr(_) => "flush",
+                    _ => "shutdown",
+                };
+                v.push(f(
+                    "C02",
+                    "progress",
+                    format!("progress/{what}-failed"),
+                    format!("{} {what} failed under a fair-lossy plan at t={} us: {m}", side_name(e.side), e.t_us),
+                ));
+                return v;
+            }
+            AppEv::ConnectErr(m) | AppEv::AcceptErr(m) => {
+                v.push(f("C02", "progress", "progress/handshake-failed", format!("{}: {m}", side_name(e.side))));
+                return v;
+            }
+            _ => {}
+        }
     }
-    for e in &l.app {
-        let (what, msg) = match &e.ev {
-            AppEv::WriteErr(m) => ("write", m),
-            AppEv::FlushErr(m) => ("flush", m),
-            AppEv::ShutdownErr(m) => ("shutdown", m),
-            AppEv::ReadErr(m) => ("read", m),
-            AppEv::ConnectErr(m) => ("connect", m),
-            AppEv::AcceptErr(m) => ("accept", m),
-            _ => continue,
-        };
-        v.push(f(
-            "C02",
-            "progress",
-            format!("progress/{what}-failed"),
-            format!("{} {what} failed under a fair-lossy plan at t={} us: {msg}", side_name(e.side), e.t_us),
-        ));
+    let connected = l.app.iter().any(|e| e.ev == AppEv::Connected && e.t_us <= horizon_us);
+    if !connected {
+        v.push(f("C02", "progress", "progress/connect-never-completed", "connect did not complete before the horizon".to_string()));
         return v;
     }
     for side in [Side::A, Side::B] {
         let w = idx(side);
-        if l.accepted[w] != want[w] {
-            v.push(f("C02", "progress", "progress/not-all-written", format!("{} wrote {} of {} bytes", side_name(side), l.accepted[w], want[w])));
-        }
+        let r = idx(other(side));
         let peer_script = if side == Side::A { &scn.app_b } else { &scn.app_a };
-        if reads_to_eof(peer_script) {
-            let r = idx(other(side));
-            if l.read[r] != want[w] {
-                v.push(f("C02", "progress", "progress/not-all-read", format!("{} read {} of the {} bytes {} wrote", side_name(other(side)), l.read[r], want[w], side_name(side))));
-            }
-            let eof = l.app.iter().any(|e| e.side == other(side) && matches!(e.ev, AppEv::ReadEof { .. }));
-            let my_script = if side == Side::A { &scn.app_a } else { &scn.app_b };
-            if closes(my_script) && !eof {
-                v.push(f("C02", "progress", "progress/no-eof", format!("{} never saw end of stream", side_name(other(side)))));
-            }
+        let mut problems = vec![];
+        if let Some(c) = pending_call[w] {
+            problems.push(format!("{}'s {c} still pending", side_name(side)));
+        }
+        if accepted[w] < want[w] && pending_call[w].is_none() {
+            problems.push(format!("{} wrote only {} of {} bytes", side_name(side), accepted[w], want[w]));
+        }
+        if reads_to_eof(peer_script) && read[r] < accepted[w] {
+            problems.push(format!("{} has read {} of the {} bytes {} wrote", side_name(other(side)), read[r], accepted[w], side_name(side)));
+        }
+        if !problems.is_empty() {
+            let sig = if zero_window_update_lost(scn, l) { "progress/zero-window-update-lost" } else { "progress/stalled-until-horizon" };
+            v.push(f(
+                "C02",
+                "progress",
+                sig,
+                format!("fair-lossy plan, after {} s of virtual time: {}", scn.horizon_s, problems.join("; ")),
+            ));
+            return v;
         }
     }
     v
+}
+
+/// C17 (R2) / C02: once an endpoint has been asked to close (shutdown, or both halves dropped) and
+/// every byte it accepted has been acknowledged, its ST_FIN is on the wire at that very instant -
+/// under ANY fault plan (the FIN goes out in the poll that processes the last ACK / the close request).
+/// Not demanded once a FIN or RESET of the peer was delivered first, or once the connection died.
+pub fn fin_emitted(scn: &Scenario, l: &RunLog) -> Vec<Finding> {
+    let mut v = vec![];
+    let horizon_us = scn.horizon_s * 1_000_000;
+    for side in [Side::A, Side::B] {
+        let from_a = side == Side::A;
+        let mut seq_end: std::collections::BTreeMap<u16, u64> = Default::default();
+        {
+            let mut seen: std::collections::BTreeSet<u16> = Default::default();
+            let mut pos = 0u64;
+            for w in l.wire.iter().filter(|w| w.from_a == from_a && w.ptype == 0 && !w.injected) {
+                if seen.insert(w.seq) {
+                    pos += w.payload.len() as u64;
+                    seq_end.insert(w.seq, pos);
+                }
+            }
+        }
+        // close request time
+        let mut acc = 0u64;
+        let mut reader_dropped = false;
+        let mut writer_dropped = false;
+        let mut t_close: Option<u64> = None;
+        for e in l.app.iter().filter(|e| e.side == side) {
+            match &e.ev {
+                AppEv::WriteAccepted { n, .. } => acc += *n as u64,
+                AppEv::ShutdownCalled => {
+                    t_close.get_or_insert(e.t_us);
+                }
+                AppEv::ReaderDropped => reader_dropped = true,
+                AppEv::WriterDropped => writer_dropped = true,
+                _ => {}
+            }
+            if reader_dropped && writer_dropped {
+                t_close.get_or_insert(e.t_us);
+            }
+        }
+        let Some(tc) = t_close else { continue };
+        // first instant at which an ACK covering everything has been delivered
+        let mut t_ack: Option<u64> = if acc == 0 { Some(0) } else { None };
+        if acc > 0 {
+            for w in l.wire.iter().filter(|w| w.from_a != from_a && !w.injected && w.parse_ok) {
+                if let (Some(dt), Some(p)) = (delivery_time(l, w.k), seq_end.get(&w.ack)) {
+                    if *p >= acc {
+                        t_ack = Some(t_ack.map(|x: u64| x.min(dt)).unwrap_or(dt));
+                    }
+                }
+            }
+        }
+        let Some(ta) = t_ack else { continue };
+        let due = tc.max(ta);
+        if due > horizon_us {
+            continue;
+        }
+        // exemptions: the peer's FIN/RESET delivered by then, the connection object died by then,
+        // the acceptor not yet established, or an error surfaced on this side before
+        let peer_closed = l.wire.iter().any(|w| w.from_a != from_a && (w.ptype == 1 || w.ptype == 3) && delivery_time(l, w.k).map(|d| d <= due).unwrap_or(false));
+        let injected_reset = l.wire.iter().any(|w| w.injected && w.ptype == 3);
+        let errored = l.app.iter().any(|e| e.side == side && e.t_us <= due && matches!(e.ev, AppEv::WriteErr(_) | AppEv::ReadErr(_) | AppEv::FlushErr(_) | AppEv::ShutdownErr(_)));
+        if peer_closed || injected_reset || errored || !connection_established_at(l, side, due) {
+            continue;
+        }
+        let fin = l.wire.iter().find(|w| w.from_a == from_a && w.ptype == 1 && !w.injected && !w.rejected);
+        let ok = fin.map(|w| w.t_us <= due + 10).unwrap_or(false);
+        if !ok {
+            v.push(f(
+                "C17",
+                "fin-emitted",
+                if fin.is_none() { "fin/never-sent-after-all-data-acked" } else { "fin/delayed-after-all-data-acked" },
+                format!(
+                    "{} asked to close at {} us, all {} accepted bytes were acknowledged by {} us, but its ST_FIN {}",
+                    side_name(side), tc, acc, ta,
+                    match fin { Some(w) => format!("appeared only at {} us", w.t_us), None => "never appeared on the wire".into() }
+                ),
+            ));
+        }
+    }
+    v
+}
+
+/// The stall pattern of a missing persist timer: the only datagram that re-opened a zero receive
+/// window was lost, nothing later from that endpoint advertised a non-zero window, and the peer's
+/// last knowledge is a zero window.
+pub fn zero_window_update_lost(scn: &Scenario, l: &RunLog) -> bool {
+    let horizon_us = scn.horizon_s * 1_000_000;
+    for from_a in [true, false] {
+        let pk: Vec<&WireEventLite> = l.wire.iter().filter(|w| w.from_a == from_a && !w.injected && w.parse_ok && w.ptype != 4 && w.t_us <= horizon_us).collect();
+        let mut lost_reopen = false;
+        let mut last_delivered_wnd: Option<u32> = None;
+        let mut prev_wnd: Option<u32> = None;
+        for w in pk {
+            let lost = w.fate == Fate::Drop;
+            if lost {
+                if w.wnd > 0 && prev_wnd == Some(0) {
+                    lost_reopen = true;
+                }
+            } else {
+                last_delivered_wnd = Some(w.wnd);
+                if w.wnd > 0 {
+                    lost_reopen = false;
+                }
+            }
+            prev_wnd = Some(w.wnd);
+        }
+        if lost_reopen && last_delivered_wnd == Some(0) {
+            return true;
+        }
+    }
+    false
 }
 
 /// Time of first delivery of send k (None if never delivered).
@@ -432,4 +572,379 @@ fn peer_window_open_at(l: &RunLog, side: Side, t: u64) -> bool {
 
 pub fn plan_is_fair_lossy(plan: &[(usize, Fate)]) -> bool {
     plan.len() < 5
+}
+
+// ---------------------------------------------------------------------------------------------
+// C03 honest completion
+// ---------------------------------------------------------------------------------------------
+
+/// cumulative stream position at the end of each data sequence number `from_a` sent (first transmissions)
+fn seq_end_map(l: &RunLog, from_a: bool) -> std::collections::BTreeMap<u16, u64> {
+    let mut seq_end: std::collections::BTreeMap<u16, u64> = Default::default();
+    let mut seen: std::collections::BTreeSet<u16> = Default::default();
+    let mut pos = 0u64;
+    for w in l.wire.iter().filter(|w| w.from_a == from_a && w.ptype == 0 && !w.injected && !w.rejected) {
+        if seen.insert(w.seq) {
+            pos += w.payload.len() as u64;
+            seq_end.insert(w.seq, pos);
+        }
+    }
+    seq_end
+}
+
+/// bytes of `from_a`'s stream whose acknowledgement has been delivered to it by time t
+fn acked_bytes_at(l: &RunLog, from_a: bool, seq_end: &std::collections::BTreeMap<u16, u64>, t: u64) -> u64 {
+    let mut best = 0u64;
+    for w in l.wire.iter().filter(|w| w.from_a != from_a && !w.injected && w.parse_ok) {
+        if let Some(dt) = delivery_time(l, w.k) {
+            if dt <= t {
+                if let Some(p) = seq_end.get(&w.ack) {
+                    best = best.max(*p);
+                }
+            }
+        }
+    }
+    best
+}
+
+/// C03. `abort_t_us`: virtual time at which the abort (cut / reset / cancel) took effect, if any;
+/// `bound_us`: time after the abort within which every call has to resolve.
+pub fn honest_completion(scn: &Scenario, l: &RunLog) -> Vec<Finding> {
+    let mut v = vec![];
+    for side in [Side::A, Side::B] {
+        let from_a = side == Side::A;
+        let seq_end = seq_end_map(l, from_a);
+        let peer = other(side);
+        let peer_script = if side == Side::A { &scn.app_b } else { &scn.app_a };
+        let peer_keeps_reading = reads_to_eof(peer_script);
+        let peer_read_total = l.read[idx(peer)];
+        let mut acc = 0u64;
+        let mut at_call = 0u64;
+        for e in l.app.iter().filter(|e| e.side == side) {
+            match &e.ev {
+                AppEv::WriteAccepted { n, .. } => acc += *n as u64,
+                AppEv::FlushCalled | AppEv::ShutdownCalled => at_call = acc,
+                AppEv::FlushOk | AppEv::ShutdownOk => {
+                    let what = if e.ev == AppEv::FlushOk { "flush" } else { "shutdown" };
+                    let acked = acked_bytes_at(l, from_a, &seq_end, e.t_us);
+                    if acked < at_call {
+                        v.push(f(
+                            "C03",
+                            "honest-completion",
+                            format!("completion/{what}-ok-before-acked"),
+                            format!(
+                                "{} {what} returned Ok at {} us but only {} of the {} bytes written before the call had been acknowledged (by a delivered datagram)",
+                                side_name(side), e.t_us, acked, at_call
+                            ),
+                        ));
+                    }
+                    if peer_keeps_reading && peer_read_total < at_call {
+                        v.push(f(
+                            "C03",
+                            "honest-completion",
+                            format!("completion/{what}-ok-but-peer-never-reads-it"),
+                            format!(
+                                "{} {what} returned Ok at {} us for {} bytes, but the peer application (which keeps reading) got only {} bytes",
+                                side_name(side), e.t_us, at_call, peer_read_total
+                            ),
+                        ));
+                    }
+                }
+                _ => {}
+            }
+        }
+        // EOF position: exactly the bytes that preceded the peer's FIN in sequence space
+        let my_eof = l.app.iter().find_map(|e| if e.side == side { if let AppEv::ReadEof { at } = e.ev { Some((at, e.t_us)) } else { None } } else { None });
+        if let Some((at, t)) = my_eof {
+            let peer_from_a = !from_a;
+            let pe = seq_end_map(l, peer_from_a);
+            let fin = l.wire.iter().find(|w| w.from_a == peer_from_a && w.ptype == 1 && !w.injected);
+            match fin {
+                None => v.push(f(
+                    "C03",
+                    "eof",
+                    "eof/without-fin",
+                    format!("{} read end-of-stream at offset {} ({} us) although the peer never sent ST_FIN", side_name(side), at, t),
+                )),
+                Some(fw) => {
+                    let before = pe.get(&fw.seq.wrapping_sub(1)).copied().unwrap_or(0);
+                    let total_first_tx = pe.values().max().copied().unwrap_or(0);
+                    if at != before || at > total_first_tx {
+                        v.push(f(
+                            "C03",
+                            "eof",
+                            "eof/position-differs-from-fin",
+                            format!("{} read end-of-stream at offset {} but {} bytes precede the peer's FIN (seq {})", side_name(side), at, before, fw.seq),
+                        ));
+                    }
+                    // and never a clean EOF with bytes missing while the writer was told shutdown succeeded
+                    let peer_shutdown_ok = l.app.iter().any(|e| e.side == peer && e.ev == AppEv::ShutdownOk);
+                    if peer_shutdown_ok && at < l.accepted[idx(peer)] {
+                        v.push(f(
+                            "C03",
+                            "eof",
+                            "eof/truncated-while-shutdown-ok",
+                            format!("{} saw a clean end-of-stream at {} while {}'s shutdown returned Ok for {} bytes", side_name(side), at, side_name(peer), l.accepted[idx(peer)]),
+                        ));
+                    }
+                }
+            }
+        }
+    }
+    v
+}
+
+/// Library calls as intervals: (side, what, t_call, Option<t_resolved>).
+pub fn call_intervals(l: &RunLog) -> Vec<(Side, &'static str, u64, Option<u64>)> {
+    let mut out = vec![];
+    for side in [Side::A, Side::B] {
+        let mut open_w: Option<(&'static str, u64)> = None;
+        let mut open_r: Option<u64> = None;
+        for e in l.app.iter().filter(|e| e.side == side) {
+            match &e.ev {
+                AppEv::WritePending => open_w = Some(("write", e.t_us)),
+                AppEv::FlushCalled => open_w = Some(("flush", e.t_us)),
+                AppEv::ShutdownCalled => open_w = Some(("shutdown", e.t_us)),
+                AppEv::WriteAccepted { .. } | AppEv::WriteErr(_) | AppEv::FlushOk | AppEv::FlushErr(_) | AppEv::ShutdownOk | AppEv::ShutdownErr(_) => {
+                    if let Some((w, t)) = open_w.take() {
+                        out.push((side, w, t, Some(e.t_us)));
+                    }
+                }
+                AppEv::ReadPending => open_r = Some(e.t_us),
+                AppEv::ReadGot { .. } | AppEv::ReadEof { .. } | AppEv::ReadErr(_) => {
+                    if let Some(t) = open_r.take() {
+                        out.push((side, "read", t, Some(e.t_us)));
+                    }
+                }
+                _ => {}
+            }
+        }
+        if let Some((w, t)) = open_w {
+            out.push((side, w, t, None));
+        }
+        if let Some(t) = open_r {
+            out.push((side, "read", t, None));
+        }
+    }
+    out
+}
+
+/// C03, bounded failure. `hit`: sides whose own connection was aborted directly (RESET delivered to
+/// it / its socket cancelled). A side that was not hit is obliged to notice only if it has something
+/// outstanding (unacknowledged bytes or an unacknowledged FIN) at or after the abort - "peer vanishes
+/// with data outstanding"; an idle endpoint whose peer silently disappears cannot know (no keep-alive).
+pub fn bounded_failure(property: &'static str, l: &RunLog, ta: u64, bound_us: u64, hit: &[Side], only_hit: bool) -> Vec<Finding> {
+    let mut v = vec![];
+    for side in [Side::A, Side::B] {
+        let from_a = side == Side::A;
+        let mut obliged = hit.contains(&side);
+        if only_hit && !obliged {
+            continue;
+        }
+        if !obliged {
+            // bytes that no delivered datagram ever acknowledged (an ACK in flight at the abort still counts)
+            let seq_end = seq_end_map(l, from_a);
+            let acked = acked_bytes_at(l, from_a, &seq_end, u64::MAX);
+            if l.accepted[idx(side)] > acked {
+                obliged = true;
+            }
+            // an unacknowledged FIN
+            if let Some(fin) = l.wire.iter().find(|w| w.from_a == from_a && w.ptype == 1 && !w.injected) {
+                let fin_acked = l.wire.iter().any(|w| w.from_a != from_a && !w.injected && w.parse_ok && w.ack == fin.seq && delivery_time(l, w.k).is_some());
+                if !fin_acked {
+                    obliged = true;
+                }
+            }
+        }
+        if !obliged {
+            continue;
+        }
+        for (s, what, tc, tr) in call_intervals(l) {
+            if s != side || tc > ta + bound_us {
+                continue;
+            }
+            let deadline = tc.max(ta) + bound_us;
+            match tr {
+                None => {
+                    // the peer's last delivered window advertisement
+                    let mut last_wnd: Option<(u64, u32)> = None;
+                    for w in l.wire.iter().filter(|w| w.from_a != from_a && !w.injected && w.parse_ok && w.ptype != 4) {
+                        if let Some(dt) = delivery_time(l, w.k) {
+                            if last_wnd.map(|x| dt >= x.0).unwrap_or(true) {
+                                last_wnd = Some((dt, w.wnd));
+                            }
+                        }
+                    }
+                    let zero_window = last_wnd.map(|x| x.1 == 0).unwrap_or(false) && !hit.contains(&side);
+                    v.push(f(
+                        property,
+                        "bounded-failure",
+                        if zero_window { "abort/stuck-behind-zero-window".to_string() } else { format!("abort/{what}-never-resolves") },
+                        format!("abort at {} us: {}'s {what} (called at {} us) never resolved (watchdog at {} us)", ta, side_name(side), tc, l.end_us),
+                    ));
+                    return v;
+                }
+                Some(t) if t > deadline => {
+                    v.push(f(
+                        property,
+                        "bounded-failure",
+                        format!("abort/{what}-resolves-too-late"),
+                        format!("abort at {} us: {}'s {what} (called at {} us) resolved at {} us, bound {} us", ta, side_name(side), tc, t, deadline),
+                    ));
+                    return v;
+                }
+                _ => {}
+            }
+        }
+    }
+    v
+}
+
+/// Calls made after the connection has died must report an error when something is at stake:
+/// the probe calls (see `AppScript::probe_after`) are logged after `ProbePhase`.
+pub fn errors_after_death(l: &RunLog) -> Vec<Finding> {
+    let mut v = vec![];
+    for side in [Side::A, Side::B] {
+        let mut in_probe = false;
+        for e in l.app.iter().filter(|e| e.side == side) {
+            match &e.ev {
+                AppEv::ProbePhase { dead } => in_probe = *dead,
+                AppEv::WriteAccepted { n, .. } if in_probe && *n > 0 => {
+                    v.push(f(
+                        "C03",
+                        "errors-after-death",
+                        "abort/write-after-death-accepted",
+                        format!("{}: the connection object was gone, yet a later write of {} byte(s) returned Ok at {} us", side_name(side), n, e.t_us),
+                    ));
+                    break;
+                }
+                _ => {}
+            }
+        }
+    }
+    v
+}
+
+// ---------------------------------------------------------------------------------------------
+// C08 termination, slot release, silence afterwards
+// ---------------------------------------------------------------------------------------------
+
+/// Per side: the instant at which the application had let go of the stream (both halves dropped, or
+/// shutdown completed) or the connection had failed (first error surfaced to that side).
+fn let_go_time(l: &RunLog, side: Side, after: u64) -> Option<u64> {
+    let mut rd = None;
+    let mut wd = None;
+    for e in l.app.iter().filter(|e| e.side == side && e.t_us >= after) {
+        match &e.ev {
+            AppEv::ShutdownOk => return Some(e.t_us),
+            AppEv::WriteErr(_) | AppEv::ReadErr(_) | AppEv::FlushErr(_) | AppEv::ShutdownErr(_) => return Some(e.t_us),
+            AppEv::ReaderDropped => rd = Some(e.t_us),
+            AppEv::WriterDropped => wd = Some(e.t_us),
+            AppEv::CycleStart(_) if e.t_us > after => break,
+            _ => {}
+        }
+        if let (Some(a), Some(b)) = (rd, wd) {
+            return Some(a.max(b));
+        }
+    }
+    None
+}
+
+pub fn termination(scn: &Scenario, l: &RunLog, cancel: Option<(u64, Side)>, bound_us: u64) -> Vec<Finding> {
+    let mut v = vec![];
+    let _ = scn;
+    // connection objects: creation -> destruction
+    let mut objs: Vec<(bool, u16, u64, Option<u64>)> = vec![]; // (owner_a, cid, created, dropped)
+    for (t, created, owner_a, cid) in &l.lifecycle {
+        if *created {
+            objs.push((*owner_a, *cid, *t, None));
+        } else if let Some(o) = objs.iter_mut().rev().find(|o| o.0 == *owner_a && o.1 == *cid && o.3.is_none()) {
+            o.3 = Some(*t);
+        }
+    }
+    for (owner_a, cid, created, dropped) in &objs {
+        let side = if *owner_a { Side::A } else { Side::B };
+        if let Some(tl) = let_go_time(l, side, created.saturating_sub(1)) {
+            let deadline = tl + bound_us;
+            let late = match dropped {
+                None => l.end_us > deadline,
+                Some(td) => *td > deadline,
+            };
+            if late {
+                v.push(f(
+                    "C08",
+                    "termination",
+                    "termination/connection-outlives-bound",
+                    format!(
+                        "{}'s application let go (or the connection failed) at {} us; its connection object (send id {}) {} (bound {} us after)",
+                        side_name(side), tl, cid,
+                        match dropped { Some(td) => format!("ended only at {} us", td), None => format!("was still alive at the end of the run ({} us)", l.end_us) },
+                        bound_us
+                    ),
+                ));
+            }
+        }
+        // silence afterwards
+        if let Some(td) = dropped {
+            // connection ids may be reused by a later connection object: look only up to its creation
+            let reuse = objs.iter().filter(|o| o.0 == *owner_a && o.1 == *cid && o.2 >= *td && !(o.2 == *created && o.3 == *dropped)).map(|o| o.2).min().unwrap_or(u64::MAX);
+            if let Some(w) = l.wire.iter().find(|w| w.from_a == *owner_a && !w.injected && w.conn_id == *cid && w.ptype != 4 && w.t_us > *td + 10 && w.t_us < reuse) {
+                v.push(f(
+                    "C08",
+                    "silence",
+                    "termination/emission-after-end",
+                    format!("{}'s connection object (send id {}) ended at {} us, yet send #{} ({}) was emitted for it at {} us", side_name(side), cid, td, w.k, crate::duo::debug::type_name(w.ptype), w.t_us),
+                ));
+            }
+        }
+        // cancellation ends the task promptly
+        if let Some((tc, cs)) = cancel {
+            if cs == side && *created <= tc {
+                let ok = dropped.map(|td| td <= tc + 1_000).unwrap_or(false);
+                if !ok {
+                    v.push(f(
+                        "C08",
+                        "cancel",
+                        "cancel/task-survives-cancellation",
+                        format!("{}'s socket was cancelled at {} us; its connection object ended at {:?}", side_name(side), tc, dropped),
+                    ));
+                }
+            }
+        }
+    }
+    // table entries: once every connection object is gone, both tables are empty
+    let all_gone = objs.iter().all(|o| o.3.is_some());
+    if all_gone && cancel.is_none() {
+        for (i, n) in l.streams_at_end.iter().enumerate() {
+            if *n > 0 {
+                v.push(f(
+                    "C08",
+                    "slot-release",
+                    "termination/streams-table-entry-leaked",
+                    format!("all connection objects are gone but socket {}'s connection table still has {} entr{}", if i == 0 { "A" } else { "B" }, n, if *n == 1 { "y" } else { "ies" }),
+                ));
+            }
+        }
+    }
+    // black-box: later cycles on the same socket pair (max_live_vsocks = 1) must work
+    let mut cycle = 0usize;
+    for e in &l.app {
+        match &e.ev {
+            AppEv::CycleStart(c) => cycle = *c,
+            AppEv::CycleLeak { live } => v.push(f(
+                "C08",
+                "slot-release",
+                "termination/slot-not-released-between-cycles",
+                format!("cycle {}: {} connection object(s) still alive {} us after the applications finished", cycle, live, bound_us),
+            )),
+            AppEv::ConnectErr(m) | AppEv::AcceptErr(m) if cycle > 0 => v.push(f(
+                "C08",
+                "slot-release",
+                "termination/reconnect-failed",
+                format!("cycle {} on the same socket pair (connection limit 1): {}", cycle, m),
+            )),
+            _ => {}
+        }
+    }
+    v
 }
